@@ -157,7 +157,7 @@ func (d *DB) Panicked() string {
 // Close closes the database.
 func (d *DB) Close() {
 	atomic.StoreInt32(&d.closed, 1)
-	d.Z.Close()
+	closeBounded(d.Z, 30*time.Second)
 }
 
 // Insert inserts one point into a stream.
